@@ -85,6 +85,8 @@ theorem cap_step {st st' : State} {l : Label} (hs : step st l = some st') : st'.
     obtain ⟨sd, m, _, _, _, hcase⟩ := step_sender hs
     rcases hcase with ⟨rfl, _⟩ | ⟨ch, rfl, _, rfl⟩ <;> rfl
   | handoff i => obtain ⟨sd, m, _, _, _, rfl⟩ := step_handoff hs; rfl
+  | park i => obtain ⟨sd, m, _, _, _, rfl⟩ := step_park hs; rfl
+  | parkRecv => obtain ⟨_, _, rfl⟩ := step_parkRecv hs; rfl
   | recv a =>
     obtain ⟨_, hcase⟩ := step_recv hs
     rcases hcase with ⟨m, rest, _, _, rfl⟩ | ⟨_, _, _, _, rfl⟩ | ⟨_, _, _, rfl⟩ | ⟨ch, _, _, _, rfl⟩ | ⟨_, _, _, rfl⟩ <;> rfl
